@@ -38,9 +38,12 @@ type chRun struct {
 	entry   int
 	payload int
 	flavour int
-	m       *chModel // prediction for the payload (exact for catchable / foreign / none payloads)
-	m0      *chModel // prediction for the same chain with nothing raised
-	exact   bool     // m is an exact prediction (payload is not one of the uncatchable kinds)
+	m       *chModel // exact prediction for the run with the uncatchable fault components (interrupts, depth limit) taken out
+	exact   bool     // no uncatchable component is armed: the run itself must match m
+	segOf   []int
+	iv      []chIterVals
+	armIntr bool // some component may call rt.Interrupt()
+	armOvf  bool // a call-depth limit is set
 
 	logs   [][]string
 	ticks  int64
@@ -54,11 +57,14 @@ type chRun struct {
 	maxDepth     int
 	intrVal      *intrPayload
 	nativeGotOvf bool
+	intrRaised   bool     // rt.Interrupt() was called by a host function (raiser or an iterator's return())
+	iterFired    []string // what the host iterators actually did (fault counters)
 
 	// values the host holds
 	goErrorCtor *goja.Object
 	preExc      *goja.Exception
 	preExcPrim  *goja.Exception
+	preExcRet   *goja.Exception // the one the iterators' return() methods panic with
 	preGo       *goja.Object
 	preGoErr    error
 	customErr   *chCustomErr
@@ -331,40 +337,41 @@ func chErrKind(err error) string {
 
 // checkUncatchable: err must be the documented uncatchable error for the payload, through any %w wrapping.
 func (r *chRun) checkUncatchable(where string, err error) bool {
-	if r.payload == cpDepth {
-		var so *goja.StackOverflowError
-		if !errors.As(err, &so) {
-			r.fail("uncatchable-error-type", "%s: got %s, want *StackOverflowError", where, chErrKind(err))
+	var so *goja.StackOverflowError
+	if errors.As(err, &so) {
+		if !r.armOvf {
+			r.fail("uncatchable-error-type", "%s: got *StackOverflowError although no call-depth limit is set", where)
 			return false
 		}
 		return true
 	}
 	var ie *goja.InterruptedError
 	if !errors.As(err, &ie) {
-		r.fail("uncatchable-error-type", "%s: got %s, want *InterruptedError", where, chErrKind(err))
+		r.fail("uncatchable-error-type", "%s: got %s, want the documented uncatchable error", where, chErrKind(err))
 		return false
 	}
-	if p, ok := ie.Value().(*intrPayload); !ok || p != r.intrVal {
+	if p, ok := ie.Value().(*intrPayload); !ok || p != r.intrVal || !r.armIntr {
 		r.fail("uncatchable-error-type", "%s: InterruptedError.Value() is not the value given to Interrupt()", where)
 		return false
 	}
 	return true
 }
 
+func chIsUncatchable(err error) bool {
+	var so *goja.StackOverflowError
+	var ie *goja.InterruptedError
+	return err != nil && (errors.As(err, &so) || errors.As(err, &ie))
+}
+
 // recv: native frame k got (v, err) from its call to the next frame.
 func (r *chRun) recv(k int, v goja.Value, err error, bare bool) {
 	where := fmt.Sprintf("native frame %d (%s)", k, chKindNames[r.frames[k-1].kind])
-	if !r.exact {
-		// uncatchable payloads: where they strike is not predicted. Either the call still completed as in the fault-free
-		// run, or it reports the uncatchable error.
-		if err != nil {
-			if r.checkUncatchable(where, err) && r.payload == cpDepth {
-				r.nativeGotOvf = true
-			}
-			return
-		}
-		if want := r.m0.in[k]; v.String() != want.normal {
-			r.fail("event-log-mismatch", "%s: nested call returned %q, the fault-free run returns %q", where, v.String(), want.normal)
+	if !r.exact && chIsUncatchable(err) {
+		// where an interrupt / the depth limit strikes is not predicted: the nested call either reports the uncatchable
+		// error or completes exactly as in the run without it
+		var so *goja.StackOverflowError
+		if r.checkUncatchable(where, err) && errors.As(err, &so) {
+			r.nativeGotOvf = true
 		}
 		return
 	}
@@ -385,7 +392,7 @@ func (r *chRun) recv(k int, v goja.Value, err error, bare bool) {
 
 // via runs the nested call of native frame k with the bookkeeping every native frame shares.
 func (r *chRun) via(k int, bare bool, call func() (goja.Value, error)) (goja.Value, error) {
-	seg := r.m0.segOf[k]
+	seg := r.segOf[k]
 	r.ev(seg, "N%d", k)
 	v, err := call()
 	if v == nil {
@@ -450,10 +457,8 @@ func (r *chRun) registerFrame(k int) {
 			v, err := r.via(k, false, func() (goja.Value, error) { return r.callNext(k) })
 			if err != nil {
 				werr := fmt.Errorf("ctx%d: %w", k, err)
-				if r.exact {
-					if q := r.m.made[k]; q != nil {
-						q.goErr = werr
-					}
+				if q := r.m.made[k]; q != nil {
+					q.goErr = werr
 				}
 				return nil, werr
 			}
@@ -476,12 +481,10 @@ func (r *chRun) registerFrame(k int) {
 				return g()
 			})
 			if err != nil {
-				if r.exact {
-					if q := r.m.made[k]; q != nil {
-						// the fresh GoError goja makes around the returned error must hold the Go error the model expects
-						// this frame to have been handed (judged by recv), which a native frame below may have made just now
-						q.goErr = r.m.in[k].p.goErr
-					}
+				if q := r.m.made[k]; q != nil && r.m.in[k].p != nil {
+					// the fresh GoError goja makes around the returned error must hold the Go error the model expects
+					// this frame to have been handed (judged by recv), which a native frame below may have made just now
+					q.goErr = r.m.in[k].p.goErr
 				}
 				return nil, err
 			}
@@ -490,7 +493,7 @@ func (r *chRun) registerFrame(k int) {
 	case cnExportPanic:
 		rt.Set(name, func(goja.FunctionCall) goja.Value {
 			// the gateway panics on exceptions: there is no error to look at on this path
-			seg := r.m0.segOf[k]
+			seg := r.segOf[k]
 			r.ev(seg, "N%d", k)
 			var g func() goja.Value
 			if xerr := rt.ExportTo(r.next(k), &g); xerr != nil {
@@ -554,7 +557,7 @@ func (r *chRun) registerFrame(k int) {
 				if !ok {
 					panic(err) // uncatchable conditions are never swallowed by this host
 				}
-				r.ev(r.m0.segOf[k], "S%d(%s)", k, chClass(ex.Value()))
+				r.ev(r.segOf[k], "S%d(%s)", k, chClass(ex.Value()))
 				return rt.ToValue(fmt.Sprintf("host-swallowed-%d", k))
 			}
 			return v
@@ -596,29 +599,34 @@ func (r *chRun) registerRecorders() {
 	rt.Set("C", func(call goja.FunctionCall) goja.Value {
 		k := int(call.Argument(0).ToInteger())
 		e := call.Argument(1)
-		seg := r.m0.segOf[k]
+		seg := r.segOf[k]
 		if r.frames[k-1].kind == cjJob {
 			seg = k
 		}
 		r.ev(seg, "C%d(%s)", k, chClass(e))
-		if r.exact {
-			// what e must be: the very payload the model carries past this frame
-			if st := r.m.in[k]; st.kind == csThrow {
-				if m := r.match(st.p, e); m != "" {
-					r.fail("catch-identity", "catch block of frame %d (%s): %s", k, chKindNames[r.frames[k-1].kind], m)
-				}
+		// what e must be: the very payload the model carries past this frame
+		if st := r.m.in[k]; st.kind == csThrow {
+			if m := r.match(st.p, e); m != "" {
+				r.fail("catch-identity", "catch block of frame %d (%s): %s", k, chKindNames[r.frames[k-1].kind], m)
 			}
-			// a catch block that runs although nothing catchable arrives shows up as an event-log mismatch
 		}
+		// a catch block that runs although nothing catchable arrives shows up as an event-log mismatch / prefix violation
 		return goja.Undefined()
 	})
 	rt.Set("F", func(call goja.FunctionCall) goja.Value {
 		k := int(call.Argument(0).ToInteger())
-		r.ev(r.m0.segOf[k], "F%d(%d)", k, call.Argument(1).ToInteger())
+		r.ev(r.segOf[k], "F%d(%d)", k, call.Argument(1).ToInteger())
 		return goja.Undefined()
 	})
+	// B(K, v): the body of frame K's loop (or its destructuring default) got v back from the next frame. It tells a close
+	// after normal completion of the body from a close during unwinding in the event log.
+	rt.Set("B", func(call goja.FunctionCall) goja.Value {
+		k := int(call.Argument(0).ToInteger())
+		r.ev(r.segOf[k], "b%d", k)
+		return call.Argument(1)
+	})
 	rt.Set("REG", func(call goja.FunctionCall) goja.Value {
-		r.ev(r.m0.segOf[r.n+1], "R")
+		r.ev(r.segOf[r.n+1], "R")
 		if len(call.Arguments) > 0 && r.rootPay != nil && r.payload != cpJsEarlierGoError {
 			r.rootPay.val = call.Argument(0)
 		}
@@ -633,7 +641,7 @@ func (r *chRun) registerRecorders() {
 func (r *chRun) registerNativeRaiser() {
 	rt := r.rt
 	name := chFn(r.n + 1)
-	seg := r.m0.segOf[r.n+1]
+	seg := r.segOf[r.n+1]
 	ok := func() goja.Value { return rt.ToValue("ok") }
 	switch r.flavour {
 	case crFunc:
@@ -668,7 +676,7 @@ func (r *chRun) registerNativeRaiser() {
 				}
 				panic(r.foreignVal)
 			case p == cpIntrNative:
-				r.fired = true
+				r.fired, r.intrRaised = true, true
 				rt.Interrupt(r.intrVal)
 			}
 			return ok()
@@ -702,6 +710,96 @@ func (r *chRun) prepareValues() {
 	rt.Set("PREGO", r.preGo)
 	r.customErr = &chCustomErr{code: 7}
 	r.intrVal = &intrPayload{id: 14}
+	_, err = rt.RunString("throw new EvalError('pre-built exception for return()')")
+	r.preExcRet = err.(*goja.Exception)
+	// what the host iterators raise
+	r.iv = make([]chIterVals, r.n+1)
+	for k := 1; k <= r.n; k++ {
+		f := r.frames[k-1]
+		if f.kind != cjHostIter {
+			continue
+		}
+		v := &r.iv[k]
+		v.nextPay = &chPay{kind: pkKnown, class: "[Object]", val: rt.NewObject()}
+		switch f.retAct {
+		case retValue:
+			v.retPay = &chPay{kind: pkKnown, class: "[Object]", val: rt.NewObject()}
+		case retException:
+			v.retPay = &chPay{kind: pkKnown, class: "[Error]", val: r.preExcRet.Value()}
+		case retGoError:
+			// documented: a returned error that is not *Exception is wrapped in a GoError
+			v.retPay = &chPay{kind: pkGoError, class: "[Error]", hasGo: true, goErr: fmt.Errorf("return() of iterator %d: %w", k, chSentB), isB: true}
+		case retForeignString:
+			v.foreign = fmt.Sprintf("boom in return() of iterator %d", k)
+		case retForeignStruct:
+			v.foreign = chForeignStruct{id: k, note: "panic in return()"}
+		case retForeignRuntime:
+			v.foreignRT = "assignment to entry in nil map"
+		}
+	}
+}
+
+// registerIterator installs HI<k>, the factory of frame k's host-implemented iterator: an object made by Go whose
+// [Symbol.iterator], next and return are Go functions. What return() and next() do is the fault schedule's choice.
+func (r *chRun) registerIterator(k int) {
+	rt := r.rt
+	f := r.frames[k-1]
+	seg := r.segOf[k]
+	iv := &r.iv[k]
+	fire := func(what string) { r.iterFired = append(r.iterFired, what) }
+	rt.Set(fmt.Sprintf("HI%d", k), func(goja.FunctionCall) goja.Value {
+		r.ev(seg, "I%d", k)
+		o := rt.NewObject()
+		o.SetSymbol(goja.SymIterator, func(c goja.FunctionCall) goja.Value { return c.This })
+		calls := 0
+		o.Set("next", func(goja.FunctionCall) goja.Value {
+			r.ev(seg, "n%d", k)
+			calls++
+			if f.nextAct == nextThrowFirst && calls == 1 || f.nextAct == nextThrowSecond && calls == 2 {
+				fire("iter-next-throw")
+				panic(iv.nextPay.val)
+			}
+			res := rt.NewObject()
+			res.Set("value", goja.Undefined())
+			res.Set("done", calls > 1)
+			return res
+		})
+		body := func() {
+			r.ev(seg, "r%d", k)
+			switch f.retAct {
+			case retValue:
+				fire("iter-return-panic-value")
+				panic(iv.retPay.val)
+			case retException:
+				fire("iter-return-panic-exception")
+				panic(r.preExcRet)
+			case retForeignString, retForeignStruct:
+				fire("iter-return-" + chRetActNames[f.retAct])
+				panic(iv.foreign)
+			case retForeignRuntime:
+				fire("iter-return-" + chRetActNames[f.retAct])
+				var m map[string]int
+				m["x"] = k
+			case retInterrupt:
+				fire("iter-return-interrupt")
+				r.intrRaised = true
+				rt.Interrupt(r.intrVal)
+			}
+		}
+		if f.retAct == retGoError {
+			o.Set("return", func(_ goja.Value) (goja.Value, error) {
+				r.ev(seg, "r%d", k)
+				fire("iter-return-go-error")
+				return nil, iv.retPay.goErr
+			})
+		} else {
+			o.Set("return", func(goja.FunctionCall) goja.Value {
+				body()
+				return rt.NewObject()
+			})
+		}
+		return o
+	})
 }
 
 // rootState: what the raiser produces for the payload kind (the root of the transfer model).
@@ -794,7 +892,14 @@ func (r *chRun) rootState() chState {
 		case cpForeignError:
 			r.foreignVal = errors.New("a plain Go error used as panic value")
 		}
-		return chState{kind: csForeign}
+		st := chState{kind: csForeign, foreign: r.foreignVal}
+		switch p {
+		case cpForeignNilMap:
+			st.foreignRT = "assignment to entry in nil map"
+		case cpForeignIndex:
+			st.foreignRT = "index out of range [5] with length 3"
+		}
+		return st
 	}
 	panic(&chHarnessBug{"unknown payload"})
 }
@@ -868,6 +973,17 @@ func chScript(frames []chFrame, entry, payload, flavour int) (string, int) {
 			emit(`function %s(){ return eval("%s()"); }`, fn, nx)
 		case cjClass:
 			emit(`function %s(){ return new (class { constructor(){ this.v = %s(); } })().v; }`, fn, nx)
+		case cjHostIter:
+			switch f.sel % nIterSel {
+			case iterForOfReturn:
+				emit(`function %s(){ for (var x of HI%d()) { return B(%d, %s()); } }`, fn, k, k, nx)
+			case iterForOfBreak:
+				emit(`function %s(){ var r; for (var x of HI%d()) { r = B(%d, %s()); break; } return r; }`, fn, k, k, nx)
+			case iterForOfExhaust:
+				emit(`function %s(){ var r; for (var x of HI%d()) { r = B(%d, %s()); } return r; }`, fn, k, k, nx)
+			default:
+				emit(`function %s(){ var [x = B(%d, %s())] = HI%d(); return x; }`, fn, k, nx, k)
+			}
 		case cnCtor:
 			emit(`function %s(){ return new NC%d().v; }`, fn, k)
 		case cnProxyCfg:
